@@ -11,7 +11,9 @@
      match_type_of_operands      resolver.rs   match_type_of_operands
      valid_operand,
      analyze_operand_type        resolver.rs   analyze_operand_type
-     resolve_binary_op_type      resolver.rs   resolve_binary_op_type
+     resolve_binary_op_type      resolver.rs   resolve_binary_op_type (current, with VALID_TYPES_FOR_OFFSET)
+     resolve_binary_op_type_pinned,
+     resolve_binary_pinned       resolver.rs   the same function / the Binary arm at the pinned commit
      resolve_unary_op_type       resolver.rs   resolve_unary_op_type
      resolve_compared_type       resolver.rs   resolve_compared_type
      is_valid_bit_cast           resolver.rs   is_valid_bit_cast
@@ -30,7 +32,7 @@
    value types other than primitives are opaque identifiers compared by equality,
    pointers are recognisable (OperandValueType::Pointer matches any pointer);
    ValueType::resolve is total (its only failing arm is unreachable!()).
-   rtype, operand_of, in_class, well_typed, well_typed_strict are SPECIFICATIONS
+   rtype, operand_of, in_class, well_typed, well_typed_cmp are SPECIFICATIONS
    (they mirror nothing in the Rust code). *)
 From PV Require Import Base.Common Base.IR Gen.TypeTables Gen.ResolverTables.
 
@@ -173,7 +175,18 @@ Definition analyze_operand_type (t : vtype) (valid : list operand_type) : res vt
 Definition is_advance (op : binop) : bool :=
   match op with AdvancePointer => true | _ => false end.
 
+(* current code: the offset of AdvancePointer must be a usize (VALID_TYPES_FOR_OFFSET),
+   checked before the pointer operand is looked at *)
 Definition resolve_binary_op_type (op : binop) (l r : texpr) : res vtype :=
+  bind (if is_advance op
+        then bind (get_type_of_operand r) (fun offset_type =>
+             bind (analyze_operand_type offset_type valid_types_for_offset) (fun _ =>
+             get_type_of_operand l))
+        else match_type_of_operands l r)
+       (fun vt => analyze_operand_type vt (binop_valid_types op)).
+
+(* the pinned commit: the right operand of AdvancePointer was never looked at *)
+Definition resolve_binary_op_type_pinned (op : binop) (l r : texpr) : res vtype :=
   bind (if is_advance op then get_type_of_operand l else match_type_of_operands l r)
        (fun vt => analyze_operand_type vt (binop_valid_types op)).
 
@@ -275,6 +288,13 @@ Definition resolve_cmp (c : tcmp) : res rcmp :=
       bind (combine2 (resolve_expr l) (resolve_expr r)) (fun lr =>
       bind compared_type (fun t => Ok (RCmp op (fst lr) (snd lr) t)))
   end.
+
+(* the Binary arm of the pinned commit (operands resolved by the current code, which
+   differs from the pinned one only in this arm) *)
+Definition resolve_binary_pinned (op : binop) (l r : texpr) : res rexpr :=
+  let op_type := resolve_binary_op_type_pinned op l r in
+  bind (combine2 (resolve_expr l) (resolve_expr r)) (fun lr =>
+  bind op_type (fun t => Ok (RBinary op (fst lr) (snd lr) t))).
 
 (* ---------- the call check ---------- *)
 
@@ -380,32 +400,27 @@ Definition operand_of (t : vtype) : option operand_type :=
 Definition in_class (t : vtype) (valid : list operand_type) : bool :=
   match operand_of t with Some o => mem_operand o valid | None => false end.
 
-(* what the gate guarantees; `strict` additionally asks for the right operand of
-   AdvancePointer to have the node's type *)
-Section wt.
-  Variable strict : bool.
-  Fixpoint well_typed_gen (r : rexpr) : bool :=
-    match r with
-    | RLeaf _ => true
-    | RBinary op a b t =>
-        well_typed_gen a && well_typed_gen b
-        && vtype_eqb (rtype a) t
-        && ((negb strict && is_advance op) || vtype_eqb (rtype b) t)
-        && in_class t (binop_valid_types op)
-    | RUnary op a t =>
-        well_typed_gen a && vtype_eqb (rtype a) t && in_class t (unop_valid_types op)
-    | RParen a => well_typed_gen a
-    | RAutocoerce a _ => well_typed_gen a
-    | RPrimCast a src dst =>
-        well_typed_gen a && vtype_eqb (rtype a) src && prim_conversion src dst
-    | RBitCast a t =>
-        well_typed_gen a && is_valid_bit_cast (rtype a) t
-    | RCall _ args _ => forallb well_typed_gen args
-    end.
-End wt.
-
-Definition well_typed : rexpr -> bool := well_typed_gen false.
-Definition well_typed_strict : rexpr -> bool := well_typed_gen true.
+(* what the gate guarantees: both operands of a binary operator have the node's type,
+   except AdvancePointer whose left operand (a pointer) has the node's type and whose
+   right operand is a usize *)
+Fixpoint well_typed (r : rexpr) : bool :=
+  match r with
+  | RLeaf _ => true
+  | RBinary op a b t =>
+      well_typed a && well_typed b
+      && vtype_eqb (rtype a) t
+      && vtype_eqb (rtype b) (if is_advance op then VPrim Usize else t)
+      && in_class t (binop_valid_types op)
+  | RUnary op a t =>
+      well_typed a && vtype_eqb (rtype a) t && in_class t (unop_valid_types op)
+  | RParen a => well_typed a
+  | RAutocoerce a _ => well_typed a
+  | RPrimCast a src dst =>
+      well_typed a && vtype_eqb (rtype a) src && prim_conversion src dst
+  | RBitCast a t =>
+      well_typed a && is_valid_bit_cast (rtype a) t
+  | RCall _ args _ => forallb well_typed args
+  end.
 
 Definition well_typed_cmp (c : rcmp) : bool :=
   match c with
